@@ -93,6 +93,7 @@ pub fn run_scenario(bench: &mut Bench, sc: &Scenario) -> ScenarioOutcome {
     let target_rec: Option<SearchRecord>;
     let outcome: Outcome;
     let end_ns: u64;
+    let last_state: std::rc::Rc<std::cell::RefCell<SimState>>;
     if sc.via_uci {
         // World U: the same through the text protocol and the real uci_loop
         if !sc.warmup_depths.is_empty() {
@@ -115,6 +116,7 @@ pub fn run_scenario(bench: &mut Bench, sc: &Scenario) -> ScenarioOutcome {
             f.uci_loop();
         });
         let st = proc_.finish();
+        last_state = st.clone();
         let st = st.borrow();
         target_rec = st.searches.get(ordinal as usize).cloned();
         end_ns = st.now_ns;
@@ -152,8 +154,9 @@ pub fn run_scenario(bench: &mut Bench, sc: &Scenario) -> ScenarioOutcome {
                 rec = sess.st().searches.last().cloned();
             }
         }
+        last_state = sess.proc_.st.clone();
         let st = sess.st();
-        target_rec = rec.or_else(|| st.searches.get(ordinal as usize).cloned());
+        target_rec = st.searches.get(ordinal as usize).cloned().or(rec);
         end_ns = st.now_ns;
         out.log_hash = st.log_hash;
         out.faults.add("stall_jump", st.faults.stall_jump);
@@ -161,6 +164,23 @@ pub fn run_scenario(bench: &mut Bench, sc: &Scenario) -> ScenarioOutcome {
         outcome = o;
     }
     out.sim_ns = end_ns.saturating_sub(1_000_000_000);
+    // a timer re-armed inside the same call continues the same overshoot
+    let target_rec = target_rec.map(|r| {
+        let st = last_state.borrow();
+        let mut best = r.clone();
+        for later in st.searches.iter().skip(r.ordinal as usize + 1) {
+            if later.inherited_overshoot.is_some() {
+                let keep_deadline = best.deadline_passed_at.or(Some((0, 0)));
+                let ns = best.ns_at_deadline;
+                best = later.clone();
+                best.deadline_passed_at = keep_deadline;
+                best.ns_at_deadline = ns;
+            } else {
+                break;
+            }
+        }
+        best
+    });
     let Some(rec) = target_rec else {
         out.violations.push(("crash".into(), format!("no search was started: {:?}", outcome)));
         return out;
